@@ -1,5 +1,5 @@
 (* C08 — lemmas.  Everything is over Q (exact rationals); no real-number axioms are used. *)
-From V Require Import Common.NumFacts C08.Model.
+From V Require Import Common.NumFacts C08.Model C08.Gen_kernels.
 From Coq Require Import Permutation Setoid Morphisms.
 Open Scope Q_scope.
 
@@ -295,7 +295,7 @@ Proof. apply map_length. Qed.
 
 (* bubble temperature <= dew temperature at the same pressure (ideal K-values, increasing Psat) *)
 Lemma bubble_le_dew_T_math ps z P Tb Td :
-  Forall increasing ps -> Forall positive ps -> nonneg z -> length z = length ps -> qsum z == 1 ->
+  Forall increasing ps -> allpos (pat ps Td) -> nonneg z -> length z = length ps -> qsum z == 1 ->
   0 < P ->
   wsum z (pat ps Tb) == P ->            (* 1 - sum z_i Psat_i(Tb) / P = 0 *)
   P * wsumi z (pat ps Td) == 1 ->       (* 1 - sum z_i P / Psat_i(Td) = 0 *)
@@ -304,7 +304,7 @@ Proof.
   intros Hinc Hpos Hz L S1 HP Hb Hd.
   destruct (Qlt_le_dec Td Tb) as [Lt|]; [exfalso|assumption].
   assert (length z = length (pat ps Td)) as L' by (rewrite pat_length; exact L).
-  pose proof (cauchy_weighted z (pat ps Td) Hz (pat_pos ps Td Hpos) L') as C. rewrite S1 in C.
+  pose proof (cauchy_weighted z (pat ps Td) Hz Hpos L') as C. rewrite S1 in C.
   assert (0 < qsum z) as S by lra.
   pose proof (wsum_lt z _ _ Hz (pat_lt ps Td Tb Hinc Lt) L' S) as W.
   assert (wsumi z (pat ps Td) == 1 / P) as E by (field_simplify_eq; lra).
@@ -383,13 +383,15 @@ Proof.
   - rewrite <- A. field. exact NZ.
 Qed.
 
-Definition weg_fix (S : solvers) : Prop := forall f x, f (weg S f x) = weg S f x.
+(* wegstein returns a fixed point of the activity-coefficient map it is given by dew_point.solve_x *)
+Definition weg_fix (S : solvers) (k : pkg) : Prop :=
+  forall xg T x, gamma_iter k xg T (weg S (gamma_iter k xg T) x) = weg S (gamma_iter k xg T) x.
 
 Lemma existsb_qzerob_vones n : existsb qzerob (vones n) = false.
 Proof. induction n; simpl; auto. Qed.
 
 Lemma solve_x_ideal k S xg x_gamma T :
-  ideal_pkg k -> weg_fix S -> (length x_gamma <= length (chems k))%nat ->
+  ideal_pkg k -> weg_fix S k -> (length x_gamma <= length (chems k))%nat ->
   solve_x k S xg x_gamma T =v= x_gamma.
 Proof.
   intros (_ & Hg & _ & _) W L. unfold solve_x.
@@ -412,7 +414,7 @@ Proof.
 Qed.
 
 Lemma dew_T_error_ideal_form k S P z buf T v x :
-  ideal_pkg k -> weg_fix S -> length z = length (chems k) ->
+  ideal_pkg k -> weg_fix S k -> length z = length (chems k) ->
   Forall (fun p => c1em16 <= p) (psats_at k T) ->
   dew_T_error k S P z (map (fun a => a * P) z) buf T = Ok (v, x) ->
   0 < T /\ x =v= map2 Qdiv (map (fun a => a * P) z) (psats_at k T) /\
@@ -436,7 +438,7 @@ Proof.
 Qed.
 
 Lemma ideal_closed_form_dew k S P z buf T v x :
-  ideal_pkg k -> weg_fix S -> length z = length (chems k) ->
+  ideal_pkg k -> weg_fix S k -> length z = length (chems k) ->
   Forall (fun p => c1em16 <= p) (psats_at k T) -> ~ P == 0 ->
   dew_T_error k S P z (map (fun a => a * P) z) buf T = Ok (v, x) ->
   (v == 0 <-> 1 / P == wsumi z (psats_at k T)).
@@ -469,7 +471,7 @@ Proof.
 Qed.
 
 Lemma dew_P_error_ideal_form k S T z buf P v x :
-  ideal_pkg k -> weg_fix S -> length z = length (chems k) ->
+  ideal_pkg k -> weg_fix S k -> length z = length (chems k) ->
   dew_P_error k S T (fst (Px_prep k z T)) (snd (Px_prep k z T)) (psats_at k T) buf P = Ok (v, x) ->
   0 < P /\ v == 1 - P * wsumi (znorm z) (psats_at k T).
 Proof.
@@ -632,7 +634,8 @@ Qed.
 (* phi ideal, pcf = 1, any gamma: solving for P at the bubble temperature found for P returns P *)
 Definition ideal_vapour (k : pkg) : Prop :=
   phi_ideal k = true /\ (forall T P Ps, pcf k T P Ps = vones (length (chems k))).
-Definition gam_shape (k : pkg) : Prop := forall x T, length (gam k x T) = length x.
+Definition gam_shape (k : pkg) : Prop :=
+  forall x T, length x = length (chems k) -> length (gam k x T) = length x.
 
 Lemma TP_inverse_lemma k S z P T y P' y' :
   secant_ok S -> iq_ok S -> N2 z -> ideal_vapour k -> gam_shape k -> length z = length (chems k) ->
@@ -653,10 +656,10 @@ Proof.
   assert (length zn = n) as Lzn by (unfold zn; rewrite znorm_length; exact L).
   assert (length Ps = n) as LPs by apply psats_at_length.
   assert (length (vmul (vmul zn Ps) (gam k zn T)) = n) as L3.
-  { rewrite vmul_length; rewrite vmul_length; try lia. rewrite Hg. lia. }
+  { rewrite vmul_length; rewrite vmul_length; try lia. rewrite (Hg zn) by exact Lzn. lia. }
   assert (length (vmul (vmul (vdivs zn P) Ps) (gam k zn T)) = n) as L4.
   { assert (length (vdivs zn P) = n) as Ld by (unfold vdivs; rewrite map_length; exact Lzn).
-    rewrite vmul_length; rewrite vmul_length; try lia. rewrite Hg. lia. }
+    rewrite vmul_length; rewrite vmul_length; try lia. rewrite (Hg zn) by exact Lzn. lia. }
   rewrite vmul_vones_r in V1 by lia. rewrite qsum_vdivs in V2. rewrite vmul_vones_r in V2 by lia.
   rewrite vmul_vdivs_l in V1. rewrite vmul_vdivs_l in V1. rewrite qsum_vdivs in V1.
   set (K := qsum (vmul (vmul zn Ps) (gam k zn T))) in *.
@@ -691,10 +694,10 @@ Proof.
   set (zn := znorm z) in *. set (n := length (chems k)) in *.
   assert (length zn = n) as Lzn by (unfold zn; rewrite znorm_length; exact L).
   assert (forall t, length (vmul (vmul zn (psats_at k t)) (gam k zn t)) = n) as L3.
-  { intros t. rewrite vmul_length; rewrite vmul_length; rewrite ?psats_at_length; try lia. rewrite Hg. lia. }
+  { intros t. rewrite vmul_length; rewrite vmul_length; rewrite ?psats_at_length; try lia. rewrite (Hg zn) by exact Lzn. lia. }
   assert (length (vmul (vmul (vdivs zn P) (psats_at k T')) (gam k zn T')) = n) as L4.
   { assert (length (vdivs zn P) = n) as Ld by (unfold vdivs; rewrite map_length; exact Lzn).
-    rewrite vmul_length; rewrite vmul_length; rewrite ?psats_at_length; try lia. rewrite Hg. lia. }
+    rewrite vmul_length; rewrite vmul_length; rewrite ?psats_at_length; try lia. rewrite (Hg zn) by exact Lzn. lia. }
   rewrite vmul_vones_r in V1 by lia. rewrite qsum_vdivs in V2. rewrite vmul_vones_r in V2 by (rewrite L3; lia).
   rewrite vmul_vdivs_l in V1. rewrite vmul_vdivs_l in V1. rewrite qsum_vdivs in V1.
   set (K1 := qsum (vmul (vmul zn (psats_at k T')) (gam k zn T'))) in *.
@@ -705,3 +708,538 @@ Proof.
   { assert (K2 / P == 1) as B by lra. assert (K2 / P * P == K2) as C by (field; lra). rewrite <- C, B. ring. }
   rewrite E1, E2. reflexivity.
 Qed.
+
+(* ---------- ordering of bubble and dew points on the model (ideal package) ---------- *)
+Definition psat_increasing (k : pkg) : Prop := Forall increasing (map c_psat (chems k)).
+Definition psat_floor_at (k : pkg) (T : Q) : Prop := Forall (fun p => c1em16 <= p) (psats_at k T).
+
+Lemma floor_allpos v : Forall (fun p => c1em16 <= p) v -> allpos v.
+Proof. intros H. pose proof c1em16_pos. induction H; constructor; auto. lra. Qed.
+
+Lemma bubble_le_dew_T_lemma k S z P Tb yb Td xd :
+  secant_ok S -> iq_ok S -> weg_fix S k -> ideal_pkg k -> psat_increasing k -> psat_floor_at k Td ->
+  nonneg z -> length z = length (chems k) -> N2 z -> 0 < P ->
+  solve_Ty k S z P = Ok (Tb, yb) -> solve_Tx k S z P = Ok (Td, xd) -> Tb <= Td.
+Proof.
+  intros HS HI HW I PS PF Hz L HN HP H1 H2.
+  destruct (solve_Ty_sound _ _ _ _ _ _ HS HI HN H1) as (NZ & r1 & (b1 & v1 & R1 & V1) & _).
+  destruct (solve_Tx_sound _ _ _ _ _ _ HS HI HN H2) as (_ & r2 & (b2 & v2 & R2 & V2) & _).
+  assert (0 < qsum z) as Sz by (apply positives_count_sum; [exact Hz | unfold N2 in HN; lia]).
+  assert (length (znorm z) = length (chems k)) as Ln by (rewrite znorm_length; exact L).
+  destruct (bubble_T_error_ideal_form _ _ _ _ _ _ _ _ I Ln R1) as (_ & _ & E1).
+  destruct (dew_T_error_ideal_form _ _ _ _ _ _ _ _ I HW Ln PF R2) as (_ & _ & E2).
+  pose proof (floor_allpos _ PF) as PP. rewrite psats_at_pat in E1, E2, PP.
+  apply (bubble_le_dew_T_math (map c_psat (chems k)) (znorm z) P Tb Td).
+  - exact PS.
+  - exact PP.
+  - apply znorm_nonneg; assumption.
+  - rewrite map_length. exact Ln.
+  - apply znorm_sum1; exact NZ.
+  - exact HP.
+  - assert (wsum (znorm z) (pat (map c_psat (chems k)) Tb) / P == 1) as B by lra.
+    assert (wsum (znorm z) (pat (map c_psat (chems k)) Tb) / P * P == wsum (znorm z) (pat (map c_psat (chems k)) Tb)) as C
+      by (field; lra).
+    rewrite <- C, B. ring.
+  - lra.
+Qed.
+
+Lemma dew_le_bubble_P_lemma k S z T Pb yb Pd xd :
+  secant_ok S -> iq_ok S -> weg_fix S k -> ideal_pkg k -> allpos (psats_at k T) ->
+  nonneg z -> length z = length (chems k) -> N2 z -> pTmin k <= T <= pTmax k ->
+  solve_Py k S z T = Ok (Pb, yb) -> solve_Px k S z T = Ok (Pd, xd) -> Pd <= Pb.
+Proof.
+  intros HS HI HW I PS Hz L HN (Tlo & Thi) H1 H2.
+  destruct (solve_Py_sound _ _ _ _ _ _ HS HI HN H1) as (NZ & r1 & (b1 & v1 & R1 & V1) & _).
+  destruct (solve_Px_sound _ _ _ _ _ _ HS HI HN H2) as (_ & r2 & (b2 & v2 & R2 & V2) & _).
+  assert (clampT k T = T) as EC.
+  { unfold clampT. assert (qltb (pTmax k) T = false) as -> by (apply qltb_false; exact Thi).
+    assert (qltb T (pTmin k) = false) as -> by (apply qltb_false; exact Tlo). reflexivity. }
+  rewrite EC in R1.
+  assert (0 < qsum z) as Sz by (apply positives_count_sum; [exact Hz | unfold N2 in HN; lia]).
+  destruct (bubble_P_error_ideal_form _ _ _ _ _ _ _ _ I L R1) as (Pb0 & E1).
+  destruct (dew_P_error_ideal_form _ _ _ _ _ _ _ _ I HW L R2) as (Pd0 & E2).
+  rewrite psats_at_pat in E1, E2.
+  apply (dew_le_bubble_P_roots (pat (map c_psat (chems k)) T) (znorm z)); auto.
+  - rewrite <- psats_at_pat. exact PS.
+  - apply znorm_nonneg; assumption.
+  - rewrite pat_length, map_length, znorm_length. exact L.
+  - apply znorm_sum1; exact NZ.
+  - lra.
+  - lra.
+Qed.
+
+(* ---------- single component ---------- *)
+Lemma solve_Ty_single k S z P i c :
+  count_true (positives z) = 1%nat -> first_true (positives z) = Some i -> nth_error (chems k) i = Some c ->
+  solve_Ty k S z P = (do T <- single_T S c P; Ok (T, normalize z)) /\
+  solve_Tx k S z P = (do T <- single_T S c P; Ok (T, normalize z)) /\
+  (forall T, solve_Py k S z T = Ok (single_P c T, normalize z)).
+Proof.
+  intros C F N. unfold solve_Ty, solve_Tx, solve_Py. rewrite C, F, N. auto.
+Qed.
+
+Lemma solve_Px_single k S z T i c :
+  count_true (positives z) = 1%nat -> first_true (truthy z) = Some i -> nth_error (chems k) i = Some c ->
+  solve_Px k S z T = Ok (single_P c T, normalize z).
+Proof. intros C F N. unfold solve_Px. rewrite C, F, N. auto. Qed.
+
+(* for a non-negative composition the first truthy entry is the first positive one *)
+Lemma truthy_positives z : nonneg z -> truthy z = positives z.
+Proof.
+  intros H; induction H as [|x z Hx Hz IH]; simpl; auto. rewrite IH. f_equal.
+  destruct (qltb 0 x) eqn:E.
+  - apply qltb_true in E. apply negb_true_iff. apply qzerob_false. lra.
+  - apply qltb_false in E. apply negb_false_iff. apply qzerob_true. lra.
+Qed.
+
+(* Chemical.Tsat: the root-finder contract gives Psat(T) = P, except for the Tb shortcut at 101325 Pa *)
+Lemma Tsat_go_sound S c P T guess : secant_ok S -> iq_ok S ->
+    (let g := fun T0 : Q => c_psat c T0 - P in
+     let y0 := g (c_Tlo c + 1) in let y1 := g (c_Thi c - 1) in
+     if qltb y0 0 && qltb 0 y1
+     then do r <- sres_res (iq S (scalar_resid g) [] (c_Tlo c + 1) (c_Thi c - 1) y0 y1 (Some guess)); Ok (fst r)
+     else do r <- sres_res (secant S (scalar_resid g) [] (c_Tlo c + 1) (c_Thi c - 1)); Ok (fst r)) = Ok T ->
+    c_psat c T - P == 0.
+Proof.
+  intros HS HI H'. cbv zeta in H'.
+  destruct (qltb (c_psat c (c_Tlo c + 1) - P) 0 && qltb 0 (c_psat c (c_Thi c - 1) - P)).
+  - destruct (iq S _ [] _ _ _ _ _) as [r rb|e eb] eqn:E; simpl in H'; [|discriminate].
+    inversion H'; subst. destruct (HI _ _ _ _ _ _ _ _ _ E) as (b0 & v & Hv & V).
+    unfold scalar_resid in Hv. inversion Hv; subst. exact V.
+  - destruct (secant S _ [] _ _) as [r rb|e eb] eqn:E; simpl in H'; [|discriminate].
+    inversion H'; subst. destruct (HS _ _ _ _ _ _ E) as (b0 & v & Hv & V).
+    unfold scalar_resid in Hv. inversion Hv; subst. exact V.
+Qed.
+
+Lemma Tsat_sound S c P T : secant_ok S -> iq_ok S -> Tsat S c P = Ok T ->
+  c_psat c T - P == 0 \/ (c_Tb c = Some T /\ ~ T == 0 /\ P == atm).
+Proof.
+  intros HS HI H. unfold Tsat in H.
+  destruct (c_Tb c) as [Tb|] eqn:ETb.
+  - destruct (negb (qzerob Tb)) eqn:ENZ.
+    + destruct (qeqb P atm) eqn:EP.
+      * inversion H; subst. right. split; [reflexivity|]. split.
+        -- apply negb_true_iff in ENZ. apply qzerob_false in ENZ. exact ENZ.
+        -- apply Qeq_bool_iff. exact EP.
+      * left. eapply Tsat_go_sound; eauto.
+    + left. eapply Tsat_go_sound; eauto.
+  - left. eapply Tsat_go_sound; eauto.
+Qed.
+
+(* a single positive entry in a non-negative composition: the normalised output is the unit vector *)
+Lemma single_positive_shape z i : nonneg z ->
+  count_true (positives z) = 1%nat -> first_true (positives z) = Some i ->
+  qsum z == nthq z i /\ 0 < nthq z i /\ forall j, j <> i -> nthq z j == 0.
+Proof.
+  intros H; revert i; induction H as [|x z Hx Hz IH]; intros i C F; unfold count_true, positives in *; simpl in *; [discriminate|].
+  destruct (qltb 0 x) eqn:E.
+  - inversion F; subst. simpl in C. apply qltb_true in E.
+    assert (forall j, nthq z j == 0) as Z.
+    { clear IH. assert (length (filter (fun b => b) (map (fun x0 => qltb 0 x0) z)) = 0%nat) as C0 by lia.
+      clear C. induction Hz as [|y z Hy Hz IHz]; intros j; [rewrite nthq_nil; reflexivity|].
+      simpl in C0. destruct (qltb 0 y) eqn:Ey; [simpl in C0; discriminate|]. apply qltb_false in Ey.
+      destruct j; unfold nthq in *; simpl; [lra | apply IHz; exact C0]. }
+    assert (qsum z == 0) as S0.
+    { clear -Z. induction z as [|y z IHz]; [reflexivity|]. simpl.
+      pose proof (Z 0%nat) as Z0. unfold nthq in Z0; simpl in Z0. rewrite Z0, IHz; [ring|].
+      intros j. specialize (Z (S j)). unfold nthq in *; simpl in Z. exact Z. }
+    unfold nthq; simpl. split; [lra|]. split; [exact E|].
+    intros [|j] Hj; [congruence|]. simpl. apply Z.
+  - apply qltb_false in E. destruct (first_true (map (fun x0 => qltb 0 x0) z)) as [i'|] eqn:F'; [|discriminate].
+    inversion F; subst. simpl in C. destruct (IH i' C eq_refl) as (S1 & P1 & Z1).
+    unfold nthq in *; simpl. split; [lra|]. split; [exact P1|].
+    intros [|j] Hj; simpl; [lra|]. apply Z1. congruence.
+Qed.
+
+Lemma normalize_single z i : nonneg z ->
+  count_true (positives z) = 1%nat -> first_true (positives z) = Some i -> c1em16 <= qsum z ->
+  nthq (normalize z) i == 1 /\ forall j, j <> i -> nthq (normalize z) j == 0.
+Proof.
+  intros H C F Hs. destruct (single_positive_shape z i H C F) as (S1 & P1 & Z1).
+  unfold normalize. assert (qltb (qsum z) c1em16 = false) as -> by (apply qltb_false; exact Hs).
+  split.
+  - rewrite nthq_vdivs, S1. field. lra.
+  - intros j Hj. rewrite nthq_vdivs, (Z1 j Hj). unfold Qdiv. ring.
+Qed.
+
+(* ---------- the result depends on z only through z / sum z ---------- *)
+Lemma qsum_vscale c z : qsum (vscale c z) == c * qsum z.
+Proof. induction z as [|x z IH]; simpl; [ring|]. unfold vscale in IH. rewrite IH. ring. Qed.
+
+Lemma znorm_scale c z : ~ c == 0 -> ~ qsum z == 0 -> znorm (vscale c z) =v= znorm z.
+Proof.
+  intros Hc Hz. unfold znorm, vdivs. pose proof (qsum_vscale c z) as Es. unfold vscale in *. rewrite map_map.
+  apply map_veqv; [|reflexivity]. intros x y E. rewrite E, Es. field. split; assumption.
+Qed.
+
+Lemma positives_scale c z : 0 < c -> positives (vscale c z) = positives z.
+Proof.
+  intros Hc. unfold positives, vscale. rewrite map_map. apply map_ext. intros x.
+  destruct (qltb 0 x) eqn:E.
+  - apply qltb_true in E. apply qltb_true. nra.
+  - apply qltb_false in E. apply qltb_false. nra.
+Qed.
+
+Lemma prep_scale k c z a : 0 < c -> ~ qsum z == 0 ->
+  fst (Ty_prep (vscale c z) a) =v= fst (Ty_prep z a) /\ snd (Ty_prep (vscale c z) a) =v= snd (Ty_prep z a) /\
+  fst (Tx_prep (vscale c z) a) =v= fst (Tx_prep z a) /\ snd (Tx_prep (vscale c z) a) =v= snd (Tx_prep z a) /\
+  fst (Px_prep k (vscale c z) a) =v= fst (Px_prep k z a) /\ snd (Px_prep k (vscale c z) a) =v= snd (Px_prep k z a).
+Proof.
+  intros Hc Hz. assert (~ c == 0) as Hc' by lra. pose proof (znorm_scale c z Hc' Hz) as E.
+  unfold Ty_prep, Tx_prep, Px_prep; cbn [fst snd]. repeat split; try exact E.
+  - rewrite E. reflexivity.
+  - apply map_veqv; [|exact E]. intros x y Exy. rewrite Exy. reflexivity.
+  - rewrite E. reflexivity.
+Qed.
+
+Definition gam_proper (k : pkg) : Prop := forall a b T, a =v= b -> gam k a T =v= gam k b T.
+
+Definition resid_equiv (r1 r2 : res (Q * vec)) : Prop :=
+  match r1, r2 with
+  | Ok (v1, y1), Ok (v2, y2) => v1 == v2 /\ y1 =v= y2
+  | Err e1, Err e2 => e1 = e2
+  | _, _ => False
+  end.
+
+Lemma residual_scale_T_lemma k S P c z buf buf' T :
+  0 < c -> ~ qsum z == 0 -> phi_ideal k = true -> gam_proper k ->
+  resid_equiv
+    (bubble_T_error k S P (fst (Ty_prep (vscale c z) P)) (snd (Ty_prep (vscale c z) P)) buf T)
+    (bubble_T_error k S P (fst (Ty_prep z P)) (snd (Ty_prep z P)) buf' T).
+Proof.
+  intros Hc Hz Hphi Hg. destruct (prep_scale k c z P Hc Hz) as (E1 & E2 & _).
+  unfold bubble_T_error, resid_equiv. destruct (qleb T 0); [reflexivity|].
+  unfold solve_y. rewrite Hphi.
+  assert (vmul (vmul (vmul (fst (Ty_prep (vscale c z) P)) (psats_at k T)) (gam k (snd (Ty_prep (vscale c z) P)) T))
+               (pcf k T P (psats_at k T))
+          =v= vmul (vmul (vmul (fst (Ty_prep z P)) (psats_at k T)) (gam k (snd (Ty_prep z P)) T))
+               (pcf k T P (psats_at k T))) as E.
+  { rewrite E1. rewrite (Hg _ _ T E2). reflexivity. }
+  split; [rewrite E; reflexivity | exact E].
+Qed.
+
+(* pressure residual of the bubble point: solve_Py hands over z_norm-based quantities only *)
+Lemma residual_scale_P_lemma k S T c z buf buf' P :
+  0 < c -> ~ qsum z == 0 -> phi_ideal k = true -> gam_proper k ->
+  resid_equiv
+    (bubble_P_error k S T (Py_prep k (vscale c z) T) (psats_at k T) buf P)
+    (bubble_P_error k S T (Py_prep k z T) (psats_at k T) buf' P).
+Proof.
+  intros Hc Hz Hphi Hg. assert (~ c == 0) as Hc' by lra. pose proof (znorm_scale c z Hc' Hz) as E0.
+  unfold bubble_P_error, resid_equiv. destruct (qleb P 0); [reflexivity|].
+  unfold solve_y. rewrite Hphi. unfold Py_prep.
+  assert (vdivs (vmul (vmul (vmul (znorm (vscale c z)) (psats_at k T)) (gam k (znorm (vscale c z)) T)) (pcf k T P (psats_at k T))) P
+          =v= vdivs (vmul (vmul (vmul (znorm z) (psats_at k T)) (gam k (znorm z) T)) (pcf k T P (psats_at k T))) P) as E.
+  { rewrite E0 at 1. rewrite (Hg _ _ T E0). reflexivity. }
+  split; [rewrite E; reflexivity | exact E].
+Qed.
+
+(* dew residuals, ideal package *)
+Lemma residual_scale_dew_lemma k S P c z buf buf' T v1 x1 v2 x2 :
+  0 < c -> ~ qsum z == 0 -> ideal_pkg k -> weg_fix S k -> length z = length (chems k) ->
+  Forall (fun p => c1em16 <= p) (psats_at k T) ->
+  dew_T_error k S P (fst (Tx_prep (vscale c z) P)) (snd (Tx_prep (vscale c z) P)) buf T = Ok (v1, x1) ->
+  dew_T_error k S P (fst (Tx_prep z P)) (snd (Tx_prep z P)) buf' T = Ok (v2, x2) ->
+  v1 == v2 /\ x1 =v= x2.
+Proof.
+  intros Hc Hz I W L Hps H1 H2. assert (~ c == 0) as Hc' by lra. pose proof (znorm_scale c z Hc' Hz) as E0.
+  unfold Tx_prep in *; cbn [fst snd] in *.
+  assert (length (znorm (vscale c z)) = length (chems k)) as L1.
+  { rewrite znorm_length. unfold vscale. rewrite map_length. exact L. }
+  assert (length (znorm z) = length (chems k)) as L2 by (rewrite znorm_length; exact L).
+  destruct (dew_T_error_ideal_form _ _ _ _ _ _ _ _ I W L1 Hps H1) as (_ & X1 & V1).
+  destruct (dew_T_error_ideal_form _ _ _ _ _ _ _ _ I W L2 Hps H2) as (_ & X2 & V2).
+  assert (map (fun a => a * P) (znorm (vscale c z)) =v= map (fun a => a * P) (znorm z)) as E1.
+  { apply map_veqv; [|exact E0]. intros x y Exy. rewrite Exy. reflexivity. }
+  split.
+  - rewrite V1, V2. unfold wsumi. rewrite E0. reflexivity.
+  - rewrite X1, X2, E1. reflexivity.
+Qed.
+
+(* ---------- permutation of the chemical list ---------- *)
+Definition vperm (s : list nat) (v : vec) : vec := map (fun i => nthq v i) s.
+
+Lemma qsum_permutation (a b : vec) : Permutation a b -> qsum a == qsum b.
+Proof. induction 1; simpl; try lra. Qed.
+
+Lemma map_nthq_seq v : map (fun i => nthq v i) (seq 0 (length v)) = v.
+Proof.
+  induction v as [|x v IH]; [reflexivity|].
+  simpl length. cbn [seq map]. f_equal. rewrite <- seq_shift, map_map. exact IH.
+Qed.
+
+Lemma qsum_vperm s v : Permutation s (seq 0 (length v)) -> qsum (vperm s v) == qsum v.
+Proof.
+  intros H. unfold vperm. rewrite (qsum_permutation _ _ (Permutation_map (fun i => nthq v i) H)).
+  rewrite map_nthq_seq. reflexivity.
+Qed.
+
+Lemma perm_lt s n : Permutation s (seq 0 n) -> Forall (fun i => (i < n)%nat) s.
+Proof.
+  intros H. apply Forall_forall. intros i Hi. apply (Permutation_in _ H) in Hi. apply in_seq in Hi. lia.
+Qed.
+
+Lemma nthq_map2 (f : Q -> Q -> Q) a b i : length a = length b -> (i < length a)%nat ->
+  nthq (map2 f a b) i = f (nthq a i) (nthq b i).
+Proof.
+  revert b i; induction a as [|x a IH]; intros [|y b] i L H; simpl in *; try lia.
+  destruct i; unfold nthq in *; simpl; [reflexivity|]. apply IH; lia.
+Qed.
+
+Lemma vperm_map2 (f : Q -> Q -> Q) s a b : length a = length b -> Forall (fun i => (i < length a)%nat) s ->
+  vperm s (map2 f a b) = map2 f (vperm s a) (vperm s b).
+Proof.
+  intros L H. unfold vperm. induction H as [|i s Hi Hs IH]; simpl; [reflexivity|].
+  rewrite IH. f_equal. apply nthq_map2; assumption.
+Qed.
+
+Lemma vperm_length s v : length (vperm s v) = length s.
+Proof. apply map_length. Qed.
+
+(* psats_at of a package whose chemical list is the permuted list *)
+Lemma psats_at_perm k k' s d T :
+  Forall (fun i => (i < length (chems k))%nat) s ->
+  chems k' = map (fun i => nth i (chems k) d) s ->
+  psats_at k' T = vperm s (psats_at k T).
+Proof.
+  intros H E. unfold psats_at, vperm. rewrite E, map_map. apply map_ext_in. intros i Hi.
+  rewrite Forall_forall in H. specialize (H _ Hi). unfold nthq.
+  rewrite (nth_indep _ 0 (c_psat d T)) by (rewrite map_length; exact H).
+  symmetry. exact (map_nth (fun c => c_psat c T) (chems k) d i).
+Qed.
+
+Definition perm_pkg (s : list nat) (k k' : pkg) : Prop :=
+  let n := length (chems k) in
+  Permutation s (seq 0 n) /\
+  (forall T, psats_at k' T = vperm s (psats_at k T)) /\
+  phi_ideal k = true /\ phi_ideal k' = true /\
+  (forall x T, length x = n -> gam k' (vperm s x) T = vperm s (gam k x T) /\ length (gam k x T) = n) /\
+  (forall T P Ps, length Ps = n -> pcf k' T P (vperm s Ps) = vperm s (pcf k T P Ps) /\ length (pcf k T P Ps) = n).
+
+Lemma residual_perm_lemma s k k' S S' P zoP zn buf buf' T v y v' y' :
+  perm_pkg s k k' -> length zoP = length (chems k) -> length zn = length (chems k) ->
+  bubble_T_error k S P zoP zn buf T = Ok (v, y) ->
+  bubble_T_error k' S' P (vperm s zoP) (vperm s zn) buf' T = Ok (v', y') ->
+  v' == v /\ y' = vperm s y.
+Proof.
+  intros (HP & HPs & Hphi & Hphi' & Hg & Hpc) L1 L2 H H'. cbv zeta in *.
+  set (n := length (chems k)) in *.
+  pose proof (perm_lt _ _ HP) as Hlt.
+  unfold bubble_T_error in *. destruct (qleb T 0); [discriminate|].
+  unfold solve_y in *. rewrite Hphi in H. rewrite Hphi' in H'.
+  inversion H; subst v y; clear H. inversion H'; subst v' y'; clear H'.
+  rewrite HPs.
+  assert (length (psats_at k T) = n) as LP by apply psats_at_length.
+  destruct (Hg zn T L2) as (Eg & Lg). destruct (Hpc T P (psats_at k T) LP) as (Epc & Lpc).
+  rewrite Eg, Epc.
+  assert (length (vmul zoP (psats_at k T)) = n) as La by (rewrite vmul_length; lia).
+  assert (length (vmul (vmul zoP (psats_at k T)) (gam k zn T)) = n) as Lb by (rewrite vmul_length; lia).
+  assert (vmul (vmul (vmul (vperm s zoP) (vperm s (psats_at k T))) (vperm s (gam k zn T))) (vperm s (pcf k T P (psats_at k T)))
+          = vperm s (vmul (vmul (vmul zoP (psats_at k T)) (gam k zn T)) (pcf k T P (psats_at k T)))) as E.
+  { unfold vmul. rewrite <- !vperm_map2; try reflexivity; change (map2 Qmult) with vmul.
+    - lia.
+    - rewrite Lb. exact Hlt.
+    - lia.
+    - rewrite La. exact Hlt.
+    - lia.
+    - rewrite L1. exact Hlt. }
+  rewrite E. split; [|reflexivity].
+  rewrite qsum_vperm; [reflexivity|].
+  rewrite vmul_length; [rewrite Lb; exact HP | lia].
+Qed.
+
+(* ---------- instance cache ---------- *)
+Lemma list_eqb_nat_eq (a b : list nat) : list_eqb Nat.eqb a b = true <-> a = b.
+Proof.
+  revert b; induction a as [|x a IH]; intros [|y b]; simpl; split; intros H; try discriminate; auto.
+  - apply andb_true_iff in H. destruct H as (H1 & H2). apply Nat.eqb_eq in H1. apply IH in H2. congruence.
+  - inversion H; subst. rewrite Nat.eqb_refl. simpl. apply IH. reflexivity.
+Qed.
+
+Lemma key_eqb_eq (a b : key) : key_eqb a b = true <-> a = b.
+Proof.
+  destruct a as [[[ca ga] pa] fa], b as [[[cb gb] pb] fb]. unfold key_eqb.
+  rewrite !andb_true_iff, list_eqb_nat_eq, !Nat.eqb_eq. split.
+  - intros (((A & B) & C) & D). congruence.
+  - intros H; inversion H; auto.
+Qed.
+
+Section Cache.
+Context {A : Type} (build : key -> res A).
+
+Definition cache_inv (st : cache A * nat) : Prop :=
+  (forall k id a, cache_find (fst st) k = Some (id, a) -> build k = Ok a /\ (id < snd st)%nat) /\
+  (forall k1 k2 id a1 a2, cache_find (fst st) k1 = Some (id, a1) -> cache_find (fst st) k2 = Some (id, a2) -> k1 = k2).
+
+Lemma cache_inv_init : cache_inv ([], 0%nat).
+Proof. split; simpl; intros; discriminate. Qed.
+
+Lemma cache_new_inv st k : cache_inv st -> cache_inv (snd (cache_new build st k)).
+Proof.
+  intros (I1 & I2). unfold cache_new. destruct (cache_find (fst st) k) as [v|] eqn:F; [split; assumption|].
+  destruct (build k) as [a|e] eqn:B; [|split; assumption].
+  cbn [snd fst]. split.
+  - intros k' id a'. cbn [fst snd cache_find]. destruct (key_eqb k' k) eqn:E.
+    + apply key_eqb_eq in E. subst k'. intros H; inversion H; subst. split; [exact B | lia].
+    + intros H. destruct (I1 _ _ _ H). split; [assumption | lia].
+  - intros k1 k2 id a1 a2. cbn [fst snd cache_find].
+    destruct (key_eqb k1 k) eqn:E1; destruct (key_eqb k2 k) eqn:E2; intros H1 H2.
+    + apply key_eqb_eq in E1, E2. congruence.
+    + inversion H1; subst. destruct (I1 _ _ _ H2). lia.
+    + inversion H2; subst. destruct (I1 _ _ _ H1). lia.
+    + eapply I2; eauto.
+Qed.
+
+Lemma cache_run_inv ks st : cache_inv st -> cache_inv (snd (cache_run build st ks)).
+Proof.
+  revert st; induction ks as [|k ks IH]; intros st I; simpl; [exact I|].
+  apply IH. apply cache_new_inv. exact I.
+Qed.
+
+(* whatever the history, the instance a constructor call returns is the one a fresh build gives *)
+Lemma cache_coherent_lemma ks k :
+  let st := snd (cache_run build ([], 0%nat) ks) in
+  match fst (cache_new build st k) with
+  | Ok (id, a) => build k = Ok a
+  | Err e => build k = Err e
+  end.
+Proof.
+  cbv zeta. pose proof (cache_run_inv ks _ cache_inv_init) as (I1 & _).
+  set (st := snd (cache_run build ([], 0%nat) ks)) in *.
+  unfold cache_new. destruct (cache_find (fst st) k) as [[id a]|] eqn:F.
+  - simpl. apply (I1 _ _ _ F).
+  - destruct (build k) as [a|e]; simpl; reflexivity.
+Qed.
+
+(* identity: a second call with the same key returns the same object, another key another object *)
+Lemma cache_identity_lemma ks k1 k2 i1 a1 i2 a2 :
+  let st := snd (cache_run build ([], 0%nat) ks) in
+  let r1 := cache_new build st k1 in
+  let r2 := cache_new build (snd r1) k2 in
+  fst r1 = Ok (i1, a1) -> fst r2 = Ok (i2, a2) -> (i1 = i2 <-> k1 = k2).
+Proof.
+  cbv zeta. pose proof (cache_run_inv ks _ cache_inv_init) as I.
+  set (st := snd (cache_run build ([], 0%nat) ks)) in *.
+  pose proof (cache_new_inv st k1 I) as I'.
+  intros H1 H2.
+  assert (cache_find (fst (snd (cache_new build st k1))) k1 = Some (i1, a1)) as F1.
+  { unfold cache_new in *. destruct (cache_find (fst st) k1) as [v|] eqn:F.
+    - simpl in *. inversion H1; subst. exact F.
+    - destruct (build k1) as [a|e]; simpl in *; [|discriminate]. inversion H1; subst.
+      assert (key_eqb k1 k1 = true) as -> by (apply key_eqb_eq; reflexivity). reflexivity. }
+  set (st1 := snd (cache_new build st k1)) in *.
+  pose proof (cache_new_inv st1 k2 I') as I''.
+  assert (cache_find (fst (snd (cache_new build st1 k2))) k2 = Some (i2, a2)) as F2.
+  { unfold cache_new in *. destruct (cache_find (fst st1) k2) as [v|] eqn:F.
+    - simpl in *. inversion H2; subst. exact F.
+    - destruct (build k2) as [a|e]; simpl in *; [|discriminate]. inversion H2; subst.
+      assert (key_eqb k2 k2 = true) as -> by (apply key_eqb_eq; reflexivity). reflexivity. }
+  assert (cache_find (fst (snd (cache_new build st1 k2))) k1 = Some (i1, a1)) as F1'.
+  { unfold cache_new. destruct (cache_find (fst st1) k2) as [v|] eqn:F; [exact F1|].
+    destruct (build k2) as [a|e]; [|exact F1]. cbn [snd fst cache_find].
+    destruct (key_eqb k1 k2) eqn:E; [|exact F1]. apply key_eqb_eq in E. subst k2. congruence. }
+  split.
+  - intros ->. destruct I'' as (_ & J). eapply J; eauto.
+  - intros ->. congruence.
+Qed.
+End Cache.
+
+(* ---------- the returned point satisfies its defining equation; output normalised ---------- *)
+Lemma normalized_root raw : qsum raw == 1 -> qsum (normalize raw) == 1 /\ normalize raw =v= raw.
+Proof.
+  intros H. pose proof (normalize_of_sum1 raw H) as E. split; [rewrite E; exact H | exact E].
+Qed.
+
+Lemma solve_Ty_equation k S z P T y : secant_ok S -> iq_ok S -> N2 z -> solve_Ty k S z P = Ok (T, y) ->
+  0 < T /\ qsum y == 1 /\ y =v= raoult_y k S (znorm z) T P /\ qsum (raoult_y k S (znorm z) T P) == 1.
+Proof.
+  intros HS HI HN H. destruct (solve_Ty_sound _ _ _ _ _ _ HS HI HN H) as (_ & raw & R & ->).
+  destruct (bubble_T_root_sum1 _ _ _ _ _ _ _ R) as (HT & S1).
+  rewrite <- (bubble_T_root_raoult _ _ _ _ _ _ R).
+  destruct (normalized_root raw S1) as (N1 & N2'). auto.
+Qed.
+
+Lemma solve_all_equations k S z a r out : secant_ok S -> iq_ok S -> N2 z ->
+  (solve_Ty k S z a = Ok (r, out) ->
+     qsum out == 1 /\ exists raw, out =v= raw /\ root_of (bubble_T_error k S a (vdivs (znorm z) a) (znorm z)) r raw) /\
+  (solve_Py k S z a = Ok (r, out) ->
+     qsum out == 1 /\ exists raw, out =v= raw /\
+       root_of (bubble_P_error k S (clampT k a) (Py_prep k z (clampT k a)) (psats_at k (clampT k a))) r raw) /\
+  (solve_Tx k S z a = Ok (r, out) ->
+     qsum out == 1 /\ exists raw, out =v= raw /\
+       root_of (dew_T_error k S a (znorm z) (map (fun u => u * a) (znorm z))) r raw) /\
+  (solve_Px k S z a = Ok (r, out) ->
+     qsum out == 1 /\ exists raw, out =v= raw /\
+       root_of (dew_P_error k S a (fst (Px_prep k z a)) (snd (Px_prep k z a)) (psats_at k a)) r raw).
+Proof.
+  intros HS HI HN. split; [|split; [|split]]; intros H.
+  - destruct (solve_Ty_sound _ _ _ _ _ _ HS HI HN H) as (_ & raw & R & ->).
+    destruct (bubble_T_root_sum1 _ _ _ _ _ _ _ R) as (_ & S1). destruct (normalized_root raw S1) as (N1 & N2').
+    split; [exact N1 | eauto].
+  - destruct (solve_Py_sound _ _ _ _ _ _ HS HI HN H) as (_ & raw & R & ->).
+    destruct (bubble_P_root_sum1 _ _ _ _ _ _ _ R) as (_ & S1). destruct (normalized_root raw S1) as (N1 & N2').
+    split; [exact N1 | eauto].
+  - destruct (solve_Tx_sound _ _ _ _ _ _ HS HI HN H) as (_ & raw & R & ->).
+    destruct (dew_T_root_sum1 _ _ _ _ _ _ _ R) as (_ & S1). destruct (normalized_root raw S1) as (N1 & N2').
+    split; [exact N1 | eauto].
+  - destruct (solve_Px_sound _ _ _ _ _ _ HS HI HN H) as (_ & raw & R & ->).
+    destruct (dew_P_root_sum1 _ _ _ _ _ _ _ _ R) as (_ & S1). destruct (normalized_root raw S1) as (N1 & N2').
+    split; [exact N1 | eauto].
+Qed.
+
+(* ---------- a root finder that meets the contracts (used by the non-vacuity examples) ---------- *)
+Fixpoint try_cands (f : resid) (buf : vec) (cands : list Q) : sres :=
+  match cands with
+  | [] => SErr ERuntime buf
+  | c :: t => match f buf c with
+              | Ok (v, b) => if qzerob v then SOk c b else try_cands f b t
+              | Err e => try_cands f buf t
+              end
+  end.
+Definition checked_solvers (cands : list Q) : solvers :=
+  mksolvers (fun f b _ _ => try_cands f b cands) (fun f b _ _ _ _ _ => try_cands f b cands) (fun f x => f x).
+
+Lemma try_cands_root f cands : forall buf x b, try_cands f buf cands = SOk x b -> root_of f x b.
+Proof.
+  induction cands as [|c t IH]; intros buf x b H; simpl in H; [discriminate|].
+  destruct (f buf c) as [[v b']|e] eqn:E.
+  - destruct (qzerob v) eqn:Z.
+    + inversion H; subst. exists buf, v. split; [exact E|]. apply qzerob_true. exact Z.
+    + eapply IH; eauto.
+  - eapply IH; eauto.
+Qed.
+Lemma checked_secant_ok cands : secant_ok (checked_solvers cands).
+Proof. intros f b x0 x1 x b' H. simpl in H. eapply try_cands_root; eauto. Qed.
+Lemma checked_iq_ok cands : iq_ok (checked_solvers cands).
+Proof. intros f b x0 x1 y0 y1 g x b' H. simpl in H. eapply try_cands_root; eauto. Qed.
+
+(* a two-chemical ideal package with Psat_A = 256 (T - 64), Psat_B = 128 (T - 64) *)
+Definition ex_chems : list chem :=
+  [mkchem (fun T => 256 * T - 16384) 200 600 None 640 4194304;
+   mkchem (fun T => 128 * T - 8192) 220 640 (Some 352) 700 4194304].
+Definition ex_pkg : pkg :=
+  match new_pkg ex_chems (ideal_gam 2) true (ideal_phi 2) (mock_pcf 2) with
+  | Ok k => k
+  | Err _ => mkpkg [] (ideal_gam 0) true (ideal_phi 0) (mock_pcf 0) 0 0 0 0
+  end.
+Definition ex_S : solvers := checked_solvers [320; 352; 49152; 131072 # 3].
+
+Lemma ex_ideal : ideal_pkg ex_pkg.
+Proof. repeat split. Qed.
+Lemma ex_weg_fix : weg_fix ex_S ex_pkg.
+Proof. intros xg T x. reflexivity. Qed.
+Lemma ex_chems_eq : chems ex_pkg = ex_chems.
+Proof. reflexivity. Qed.
+Lemma ex_increasing : psat_increasing ex_pkg.
+Proof.
+  unfold psat_increasing. rewrite ex_chems_eq. unfold ex_chems. cbn [map c_psat].
+  repeat constructor; intros a b H; lra.
+Qed.
+
+(* ---------- tie to the source: the kernels generated from /repo by tr/C08_kernels.py are the hand-written ones ---------- *)
+Lemma generated_kernels_agree :
+  g_bubble_T_error = bubble_T_error /\ g_bubble_P_error = bubble_P_error /\
+  g_bubble_T_error_ideal = bubble_T_error_ideal /\ g_Py_ideal = Py_ideal /\
+  g_dew_T_error = dew_T_error /\ g_dew_T_error_ideal = dew_T_error_ideal /\ g_dew_P_error = dew_P_error /\
+  g_Ty_prep = Ty_prep /\ g_Py_prep = Py_prep /\ g_Tx_prep = Tx_prep /\ g_Px_prep = Px_prep.
+Proof. repeat split; reflexivity. Qed.
